@@ -27,6 +27,10 @@ type c12Case struct {
 	run  func() []byte
 }
 
+// c12Thorough adds larger pictures (more chunks per worker, empty histogram tiles on
+// chunk boundaries, several token partitions) to the case list.
+var c12Thorough bool
+
 func c12Cases(seed int64) []c12Case {
 	pin()
 	var out []c12Case
@@ -49,6 +53,15 @@ func c12Cases(seed int64) []c12Case {
 	add("lossless 256x200 regions m4 q75", encBytes(imgs.Make(256, 200, "regions4", "opaque", seed), ll(4, 75)))
 	add("lossless 320x320 gradient m6 q100", encBytes(imgs.Make(320, 320, "gradient", "opaque", seed), ll(6, 100)))
 	add("lossless 256x200 many m2 q50", encBytes(imgs.Make(256, 200, "many", "binary", seed), ll(2, 50)))
+	if c12Thorough {
+		add("lossless 517x389 regions m4 q90", encBytes(imgs.Make(517, 389, "regions4", "opaque", seed), ll(4, 90)))
+		add("lossless 517x389 patchwork m6 q100", encBytes(imgs.Make(517, 389, "patchwork", "binary", seed), ll(6, 100)))
+		add("lossless 400x300 c16 m3 q25", encBytes(imgs.Make(400, 300, "c16", "opaque", seed), ll(3, 25)))
+		add("lossy 200x136 many m4 partitions 3", encBytes(imgs.Make(200, 136, "many", "opaque", seed), func() *webp.EncoderOptions { o := lossy(4, 75); o.Partitions = 3; return o }()))
+		add("lossy 208x160 noise m5 sharp yuv", encBytes(imgs.Make(208, 160, "noise", "opaque", seed), func() *webp.EncoderOptions { o := lossy(5, 60); o.UseSharpYUV = true; return o }()))
+		add("lossy+alpha 208x160 gradient m4 dithered", encBytes(imgs.Make(208, 160, "gradient", "anoise", seed), func() *webp.EncoderOptions { o := lossy(4, 75); o.Preprocessing = 2; return o }()))
+		add("lossy 640x48 wide m1", encBytes(imgs.Make(640, 48, "regionsV", "opaque", seed), lossy(1, 75)))
+	}
 	big := mustEncode(imgs.Make(320, 320, "gradient", "opaque", seed), ll(4, 75))
 	add("decode lossless 320x320", decPix(big))
 	bigA := mustEncode(imgs.Make(320, 320, "noise", "agradient", seed), lossy(4, 75))
@@ -118,9 +131,10 @@ func vecName(def int, sites map[string]int) string {
 func init() {
 	fw.Register(&fw.Check{
 		ID: "C12", Level: "exploration", Shards: shards16,
-		Rule:   "every runtime.GOMAXPROCS(0) call site found in the current tree is hooked (13 today); for 12 (picture, options) cases large enough for every parallel threshold: the all-ones vector (reference), every single site deviating to each of {2,3,5,16}, every uniform vector n=2..16 (what a real GOMAXPROCS value produces), every pair of sites deviating to {2,5}; executed under the deterministic default schedule with pools that never reuse, so the result is a function of the vector alone; distinct = distinct (case, vector)",
-		Assume: []string{"default (non-preempted) schedule: schedule dependence is C10's subject", "pools never reuse: history dependence is C11's subject", "GOMAXPROCS above 16 is not run"},
+		Rule:   "every runtime.GOMAXPROCS(0) call site found in the current tree is hooked (13 today); for 12 (thorough 19: larger pictures with several chunks per worker) (picture, options) cases large enough for every parallel threshold: the all-ones vector (reference), every single site deviating to each of {2,3,5,16}, every uniform vector n=2..16 (thorough 2..33; what a real GOMAXPROCS value produces), every pair of sites deviating to {2,5}; executed under the deterministic default schedule with pools that never reuse, so the result is a function of the vector alone; distinct = distinct (case, vector)",
+		Assume: []string{"default (non-preempted) schedule: schedule dependence is C10's subject", "pools never reuse: history dependence is C11's subject", "GOMAXPROCS above 16 (thorough 33) is not run"},
 		Run: func(e *fw.Env, r *fw.Result) {
+			c12Thorough = !e.Quick()
 			cases := c12Cases(e.Seed)
 			// discover sites: run every case once with default 2 and record the sites reached
 			vhook.ResetSeen()
@@ -148,7 +162,11 @@ func init() {
 			}
 			var jobs []job
 			for ci := range cases {
-				for n := 2; n <= 16; n++ {
+				maxN := 16
+				if c12Thorough {
+					maxN = 33 // more workers than most loops have rows or tiles
+				}
+				for n := 2; n <= maxN; n++ {
 					jobs = append(jobs, job{ci, n, nil})
 				}
 				for _, s := range reached[ci] {
@@ -216,6 +234,7 @@ func init() {
 		Replay: func(e *fw.Env, raw json.RawMessage) string {
 			var rp c12Replay
 			json.Unmarshal(raw, &rp)
+			c12Thorough = true
 			for _, cs := range c12Cases(rp.Seed) {
 				if cs.name == rp.Case {
 					cs := cs
